@@ -299,7 +299,9 @@ func (dec *xmlDecoder) decodeXML(root *xmlNode) error {
 				log.Debug("chardata [%v] for %v", elem.n.Data, elem.label)
 			}
 		case xml.EndElement:
-			if elem == nil {
+			if elem == nil || elem.parent == nil {
+				// a closing tag without an open element: staying on the root
+				// element keeps elem from becoming nil for the tokens that follow
 				log.Debug("no element, probably bad xml")
 				continue
 			}
